@@ -33,18 +33,23 @@ impl Run {
         Ok(cp)
     }
 
-    // Copy all current state into the file.
+    // Copy all current state into the file. The data is written to a temporary
+    // file that is then renamed into place, so that being interrupted mid-save
+    // leaves the previous contents intact instead of a truncated file.
     pub(crate) fn save(&mut self) -> Result<(), MonorailError> {
+        let tmp_path = self.path.with_extension("json.tmp");
         let mut file = fs::OpenOptions::new()
             .write(true)
             .truncate(true)
             .create(true)
-            .open(&self.path)?;
+            .open(&tmp_path)?;
 
         #[cfg(pnordahl_monorail_verif)]
         crate::verif::point("run_save_after_truncate");
         let data = serde_json::to_vec(self)?;
         file.write_all(&data)?;
+        file.sync_all()?;
+        fs::rename(&tmp_path, &self.path)?;
         Ok(())
     }
 }
